@@ -40,6 +40,7 @@ import (
 	"github.com/versity/versitygw/auth"
 	"github.com/versity/versitygw/backend"
 	"github.com/versity/versitygw/backend/meta"
+	"github.com/versity/versitygw/internal/verifhook"
 	"github.com/versity/versitygw/s3api/utils"
 	"github.com/versity/versitygw/s3err"
 	"github.com/versity/versitygw/s3response"
@@ -388,6 +389,7 @@ func (p *Posix) CreateBucket(ctx context.Context, input *s3.CreateBucketInput, a
 		return fmt.Errorf("mkdir bucket: %w", err)
 	}
 
+	verifhook.Point("mkbucket.afterMkdir")
 	if doChown {
 		err := os.Chown(bucket, uid, gid)
 		if err != nil {
@@ -399,6 +401,7 @@ func (p *Posix) CreateBucket(ctx context.Context, input *s3.CreateBucketInput, a
 	if err != nil {
 		return fmt.Errorf("set acl: %w", err)
 	}
+	verifhook.Point("mkbucket.afterAcl")
 	err = p.meta.StoreAttribute(nil, bucket, "", ownershipkey, []byte(input.ObjectOwnership))
 	if err != nil {
 		return fmt.Errorf("set ownership: %w", err)
@@ -476,11 +479,13 @@ func (p *Posix) DeleteBucket(_ context.Context, bucket string) error {
 		return err
 	}
 
+	verifhook.Point("rmbucket.afterEmptyCheck")
 	// Remove the bucket
 	err = os.RemoveAll(bucket)
 	if err != nil {
 		return fmt.Errorf("remove bucket: %w", err)
 	}
+	verifhook.Point("rmbucket.afterRemoveAll")
 	// Remove the bucket from versioning directory
 	if p.versioningEnabled() {
 		err = os.RemoveAll(filepath.Join(p.versioningDir, bucket))
@@ -719,6 +724,7 @@ func (p *Posix) createObjVersion(bucket, key string, size int64, acc auth.Accoun
 		return versionPath, err
 	}
 
+	verifhook.Point("ver.afterData")
 	versionPath = filepath.Join(versionBucketPath, versioningKey)
 
 	err = os.MkdirAll(filepath.Join(versionBucketPath, genObjVersionKey(key)), p.newDirPerm)
@@ -739,10 +745,12 @@ func (p *Posix) createObjVersion(bucket, key string, size int64, acc auth.Accoun
 		}
 	}
 
+	verifhook.Point("ver.afterAttrs")
 	if err := f.link(); err != nil {
 		return versionPath, err
 	}
 
+	verifhook.Point("ver.afterLink")
 	return versionPath, nil
 }
 
@@ -1489,6 +1497,7 @@ func (p *Posix) CompleteMultipartUpload(ctx context.Context, input *s3.CompleteM
 		return nil, s3err.GetIncorrectMpObjectSizeErr(totalsize, *input.MpuObjectSize)
 	}
 
+	verifhook.Point("cmp.afterCheck")
 	var hashRdr *utils.HashReader
 	var compositeChecksumRdr *utils.CompositeChecksumReader
 	switch checksums.Type {
@@ -1543,6 +1552,7 @@ func (p *Posix) CompleteMultipartUpload(ctx context.Context, input *s3.CompleteM
 		}
 	}
 
+	verifhook.Point("cmp.afterAssemble")
 	upiddir := filepath.Join(objdir, uploadID)
 
 	userMetaData := make(map[string]string)
@@ -1578,6 +1588,7 @@ func (p *Posix) CompleteMultipartUpload(ctx context.Context, input *s3.CompleteM
 		}
 	}
 
+	verifhook.Point("cmp.afterVersionCopy")
 	// if the versioning is enabled, generate a new versionID for the object
 	var versionID string
 	if p.versioningEnabled() && vEnabled {
@@ -1699,17 +1710,20 @@ func (p *Posix) CompleteMultipartUpload(ctx context.Context, input *s3.CompleteM
 		return nil, fmt.Errorf("set etag attr: %w", err)
 	}
 
+	verifhook.Point("cmp.afterAttrs")
 	err = f.link()
 	if err != nil {
 		return nil, fmt.Errorf("link object in namespace: %w", err)
 	}
 
+	verifhook.Point("cmp.afterLink")
 	// cleanup tmp dirs
 	os.RemoveAll(filepath.Join(bucket, objdir, uploadID))
 	// use Remove for objdir in case there are still other uploads
 	// for same object name outstanding, this will fail if there are
 	os.Remove(filepath.Join(bucket, objdir))
 
+	verifhook.Point("cmp.afterCleanup")
 	return &s3.CompleteMultipartUploadOutput{
 		Bucket:            &bucket,
 		ETag:              &s3MD5,
@@ -2404,6 +2418,7 @@ func (p *Posix) UploadPart(ctx context.Context, input *s3.UploadPartInput) (*s3.
 		return nil, fmt.Errorf("write part data: %w", err)
 	}
 
+	verifhook.Point("part.afterData")
 	dataSum := hash.Sum(nil)
 	etag := hex.EncodeToString(dataSum)
 	err = p.meta.StoreAttribute(f.File(), bucket, partPath, etagkey, []byte(etag))
@@ -2455,6 +2470,7 @@ func (p *Posix) UploadPart(ctx context.Context, input *s3.UploadPartInput) (*s3.
 		return nil, fmt.Errorf("link object in namespace: %w", err)
 	}
 
+	verifhook.Point("part.afterLink")
 	return res, nil
 }
 
@@ -2727,6 +2743,7 @@ func (p *Posix) PutObject(ctx context.Context, po s3response.PutObjectInput) (s3
 			return s3response.PutObjectOutput{}, err
 		}
 
+		verifhook.Point("putdir.afterMkdir")
 		for k, v := range po.Metadata {
 			err := p.meta.StoreAttribute(nil, *po.Bucket, *po.Key,
 				fmt.Sprintf("%v.%v", metaHdr, k), []byte(v))
@@ -2794,6 +2811,7 @@ func (p *Posix) PutObject(ctx context.Context, po s3response.PutObjectInput) (s3
 		return s3response.PutObjectOutput{}, fmt.Errorf("stat object: %w", err)
 	}
 
+	verifhook.Point("put.afterStat")
 	f, err := p.openTmpFile(filepath.Join(*po.Bucket, metaTmpDir),
 		*po.Bucket, *po.Key, contentLength, acct, doFalloc, p.forceNoTmpFile)
 	if err != nil {
@@ -2804,6 +2822,7 @@ func (p *Posix) PutObject(ctx context.Context, po s3response.PutObjectInput) (s3
 	}
 	defer f.cleanup()
 
+	verifhook.Point("put.afterOpenTmp")
 	hash := md5.New()
 	rdr := io.TeeReader(po.Body, hash)
 
@@ -2846,6 +2865,7 @@ func (p *Posix) PutObject(ctx context.Context, po s3response.PutObjectInput) (s3
 		return s3response.PutObjectOutput{}, fmt.Errorf("write object data: %w", err)
 	}
 
+	verifhook.Point("put.afterData")
 	dir := filepath.Dir(name)
 	if dir != "" {
 		err = backend.MkdirAll(dir, uid, gid, doChown, p.newDirPerm)
@@ -2938,6 +2958,7 @@ func (p *Posix) PutObject(ctx context.Context, po s3response.PutObjectInput) (s3
 		}
 	}
 
+	verifhook.Point("put.afterAttrs")
 	err = f.link()
 	if errors.Is(err, syscall.EEXIST) {
 		return s3response.PutObjectOutput{
@@ -2949,6 +2970,7 @@ func (p *Posix) PutObject(ctx context.Context, po s3response.PutObjectInput) (s3
 		return s3response.PutObjectOutput{}, s3err.GetAPIError(s3err.ErrExistingObjectIsDirectory)
 	}
 
+	verifhook.Point("put.afterLink")
 	// Set object tagging
 	if tags != nil {
 		err := p.PutObjectTagging(ctx, *po.Bucket, *po.Key, tags)
@@ -2963,6 +2985,7 @@ func (p *Posix) PutObject(ctx context.Context, po s3response.PutObjectInput) (s3
 		}
 	}
 
+	verifhook.Point("put.afterTags")
 	// Set object legal hold
 	if po.ObjectLockLegalHoldStatus == types.ObjectLockLegalHoldStatusOn {
 		err := p.PutObjectLegalHold(ctx, *po.Bucket, *po.Key, "", true)
@@ -2971,6 +2994,7 @@ func (p *Posix) PutObject(ctx context.Context, po s3response.PutObjectInput) (s3
 		}
 	}
 
+	verifhook.Point("put.afterLegalHold")
 	// Set object retention
 	if po.ObjectLockMode != "" {
 		retention := types.ObjectLockRetention{
@@ -3064,12 +3088,14 @@ func (p *Posix) DeleteObject(ctx context.Context, input *s3.DeleteObjectInput) (
 				}
 			}
 
+			verifhook.Point("del.afterVersionCopy")
 			// Mark the object as a delete marker
 			err = p.meta.StoreAttribute(nil, bucket, object, deleteMarkerKey, []byte{})
 			if err != nil {
 				return nil, fmt.Errorf("set delete marker: %w", err)
 			}
 
+			verifhook.Point("del.afterMarker")
 			versionId := nullVersionId
 			if p.isBucketVersioningEnabled(vStatus) {
 				// Generate & set a unique versionId for the delete marker
@@ -3113,6 +3139,7 @@ func (p *Posix) DeleteObject(ctx context.Context, input *s3.DeleteObjectInput) (
 					return nil, fmt.Errorf("remove obj version: %w", err)
 				}
 
+				verifhook.Point("del.afterRemove")
 				ents, err := os.ReadDir(versionPath)
 				if errors.Is(err, fs.ErrNotExist) {
 					p.removeParents(bucket, object)
@@ -3165,6 +3192,7 @@ func (p *Posix) DeleteObject(ctx context.Context, input *s3.DeleteObjectInput) (
 					return nil, fmt.Errorf("link tmp file: %w", err)
 				}
 
+				verifhook.Point("del.afterPromoteLink")
 				attrs, err := p.meta.ListAttributes(versionPath, srcVersionId)
 				if err != nil {
 					return nil, fmt.Errorf("list object attributes: %w", err)
@@ -3182,6 +3210,7 @@ func (p *Posix) DeleteObject(ctx context.Context, input *s3.DeleteObjectInput) (
 					}
 				}
 
+				verifhook.Point("del.afterPromoteAttrs")
 				err = os.Remove(filepath.Join(versionPath, srcVersionId))
 				if err != nil {
 					return nil, fmt.Errorf("remove obj version %w", err)
@@ -3242,6 +3271,7 @@ func (p *Posix) DeleteObject(ctx context.Context, input *s3.DeleteObjectInput) (
 		return &s3.DeleteObjectOutput{}, nil
 	}
 
+	verifhook.Point("del.afterStat")
 	err = os.Remove(objpath)
 	if errors.Is(err, fs.ErrNotExist) {
 		return nil, s3err.GetAPIError(s3err.ErrNoSuchKey)
@@ -3268,11 +3298,13 @@ func (p *Posix) DeleteObject(ctx context.Context, input *s3.DeleteObjectInput) (
 		return nil, fmt.Errorf("delete object: %w", err)
 	}
 
+	verifhook.Point("del.afterUnlink")
 	err = p.meta.DeleteAttributes(bucket, object)
 	if err != nil {
 		return nil, fmt.Errorf("delete object attributes: %w", err)
 	}
 
+	verifhook.Point("del.afterAttrsRemoved")
 	p.removeParents(bucket, object)
 
 	return &s3.DeleteObjectOutput{}, nil
@@ -3421,6 +3453,7 @@ func (p *Posix) GetObject(_ context.Context, input *s3.GetObjectInput) (*s3.GetO
 		return nil, fmt.Errorf("stat object: %w", err)
 	}
 
+	verifhook.Point("get.afterStat")
 	if strings.HasSuffix(object, "/") && !fi.IsDir() {
 		return nil, s3err.GetAPIError(s3err.ErrNoSuchKey)
 	}
@@ -3537,6 +3570,7 @@ func (p *Posix) GetObject(_ context.Context, input *s3.GetObjectInput) (*s3.GetO
 		tagCount = &tgCount
 	}
 
+	verifhook.Point("get.afterAttrs")
 	f, err := os.Open(objPath)
 	if errors.Is(err, fs.ErrNotExist) {
 		return nil, s3err.GetAPIError(s3err.ErrNoSuchKey)
@@ -3545,6 +3579,7 @@ func (p *Posix) GetObject(_ context.Context, input *s3.GetObjectInput) (*s3.GetO
 		return nil, fmt.Errorf("open object: %w", err)
 	}
 
+	verifhook.Point("get.afterOpen")
 	var checksums s3response.Checksum
 	var cType types.ChecksumType
 	// Skip the checksums retreival if object isn't requested fully
@@ -3694,6 +3729,7 @@ func (p *Posix) HeadObject(ctx context.Context, input *s3.HeadObjectInput) (*s3.
 	if err != nil {
 		return nil, fmt.Errorf("stat object: %w", err)
 	}
+	verifhook.Point("head.afterStat")
 	if strings.HasSuffix(object, "/") && !fi.IsDir() {
 		return nil, s3err.GetAPIError(s3err.ErrNoSuchKey)
 	}
